@@ -116,8 +116,8 @@ P("C17", "proof", kani={"timeout": "1500s", "compile_clause": True}, native=True
   bounded="12 x 12 program with block captures on every action; 11 named branches with handler; nesting of the 4 executable kinds to depth 3 inside operands, captures and handlers; 6 native programs nest the thread- and tokio-spawning kinds inside spawned branches (depth 2-3): they must compile (Send + 'static across the levels) and give the documented values",
   not_decided="identifier literals inside quote! bodies vs user identifiers (macro hygiene); spawn kinds beyond those 6 programs")
 
-P("C19", "other", kani={"timeout": "600s", "compile_clause": True},
+P("C19", "other", native=True, kani={"timeout": "600s", "compile_clause": True},
   explanation="bounds claim only: programs over move-only (no Clone, counting Drop), non-Send (Rc) and stack-borrowing (&, &mut, non-'static) values must type-check through the real expansion of the four non-spawning executable kinds (rustc's type system is the checker; a rustc error originating in the macro is the violation) and run to the documented value under Kani with live()==0 at the end",
   unbounded="<JoinOutput as ToTokens>::to_tokens: for every JoinOutput the sync expansion is `{ helpers; [let __handler = h;] let __results = { steps }; handle }` and the async one the same inside ONE `Box::pin(async move { .. })` - the steps are a plain block of the scope the macro is called in (no closure, thread or further box of the macro's own around them), the spawn helpers exist only for the spawning kinds",
-  bounded="21 programs (operators, steps, wrappers, handlers, let names, async, results holding fresh &mut reborrows with and without handlers)",
-  not_decided="the heap-allocation claim (Kani ignores custom allocators; no verifier here decides it); spawn kinds legitimately need Send + 'static")
+  bounded="21 programs (operators, steps, wrappers, handlers, let names, async, results holding fresh &mut reborrows with and without handlers); heap-allocation claim: 6 native programs of the sequential macros (try with 2-3 steps on Result / Option incl. failing branches, handlers, wrapper + capture + inspect, single branch) run under a counting global allocator on 48 (thorough 400) sampled inputs - the calling thread's allocation count must not move across the macro",
+  not_decided="the heap-allocation claim beyond those programs (Kani ignores custom allocators; no verifier here decides it; the token-level contracts of join_steps / generate_step_tail / generate_handle fix the glue the sequential expansion consists of, and it contains no allocating call); spawn kinds legitimately need Send + 'static")
